@@ -285,6 +285,7 @@ func runCheck(prop, repo, verif, tier, only string, updateBaseline, verbose, noE
 		return 2
 	}
 	x := e.x
+	x.recordedLocals = readLocals(filepath.Join(verif, "baseline_locals.json"))
 	outDir := filepath.Join(verif, "out", prop)
 	os.RemoveAll(outDir)
 	os.MkdirAll(outDir, 0o755)
@@ -543,6 +544,15 @@ func runCheck(prop, repo, verif, tier, only string, updateBaseline, verbose, noE
 
 	if updateBaseline {
 		writeBaseline(baselinePath, prop, groups, order)
+		// the named variables of every function under contract, in order (rename tolerance)
+		lp := filepath.Join(verif, "baseline_locals.json")
+		locs := readLocals(lp)
+		for _, ct := range e.cs.contracts {
+			if ct.fn != nil && !ct.lemma {
+				locs[ct.fn.String()] = orderedLocals(ct.fn)
+			}
+		}
+		writeLocals(lp, locs)
 	}
 	if !noEvidence {
 		writeEvidence(e, prop, tier, seed, wall, nObl, nDis, nKnown, violations, perObl, fnsUnder, engineErrs, solverMs, groups, order)
